@@ -7,6 +7,7 @@ package main
 //
 // -mode c16rpc
 //	rpc <id> <shard> <prefix> <step>;...
+//	    E:<0|1>         (first step only) the shard runs with NewTermOptions{EnableNotifications: 0|1}   -> ok
 //	    Q:<d1>+<d2>..   sequence put on the prefix through WriteBlock            -> <generated key> | <STATUS> | err
 //	    X:<i>           delete the i-th live generated key (0 = highest) through WriteBlock -> <key> | -
 //	    T[:<prefix>]    attach a subscriber (GetSequenceUpdates RPC) on the prefix of the case / on another one -> ok
@@ -176,7 +177,16 @@ func (r *rpcEnv) do(step string) string {
 	f := strings.Split(step, ":")
 	res := "ok"
 	r.ts++
+	if !r.l.started {
+		// E:<0|1> as first step: the leader is started with NewTermOptions{EnableNotifications: 0|1}
+		r.l.started = true
+		if f[0] == "E" {
+			r.l.noNotif = f[1] == "0"
+		}
+		hx.Must(r.l.start(1))
+	}
 	switch f[0] {
+	case "E":
 	case "Q", "QP":
 		p := putOp{key: r.prefix, value: []byte("v"), part: pstr("pk")}
 		dtxt := f[1]
@@ -269,7 +279,6 @@ func c16RpcCase(o *hx.Out, shard int64, prefix string, tag string, ntKey string,
 	l := newLeaderEnv(o, shard, tag)
 	leaderEnvInMemory = false
 	defer l.close()
-	hx.Must(l.start(1))
 	r := &rpcEnv{l: l, prefix: prefix, generated: map[string]bool{}, ts: 1000}
 	body(r)
 	for i, c := range r.cancels {
@@ -299,6 +308,10 @@ func c16RpcMain(o *hx.Out, f hx.Flags) {
 					ds = append(ds, strconv.Itoa(1+crng.Intn(3)))
 				}
 				return "Q:" + strings.Join(ds, "+")
+			}
+			if crng.Chance(30) { // what subscribers observe must not depend on the notifications switch of the shard
+				r.do("E:0")
+				o.Count("c16rpc:notifications-disabled")
 			}
 			other := hx.Pick(crng, c16Prefixes)
 			if other == prefix {
